@@ -66,8 +66,8 @@ var guestBin = func() []byte {
 // guest memory layout
 const (
 	resP   = 8
-	path1P = 64
-	path2P = 160
+	path1P = 8192 // 1 KiB each: names of up to 255 bytes below a directory
+	path2P = 9216
 	iovP   = 256
 	wbufP  = 512
 	rbufP  = 1024
